@@ -62,7 +62,11 @@ P = {
    'Trusts harness/src/oracle/pep440.rs::cmp, written from the key in the property statement (which differs from PEP 440 proper only in where a bare dev release sorts).',
    "§6 C11"),
  "C12": (False, "", "", "", "§6 C12"),
- "C13": (False, "", "", "", "§6 C13"),
+ "C13": (True,
+   'fuzzing with structured adversarial argv/stdin generation (proptest) under a no-panic / process-contract oracle, in-process and through the real binary (differential, -v/RUST_LOG metamorphic), plus exhaustive single-fault enumeration of every git invocation via a PATH shim',
+   "200k (quick) / 3M (thorough) adversarial argument vectors for the four sub-commands run in-process under catch_unwind; 700/10k of them through the binary checking exit status 0/1, empty stdout + diagnostic on failure, library/binary agreement and stdout invariance under -v and RUST_LOG=trace; for generated repositories every git call zerv makes is failed in turn in 8 ways (about 90 fault runs per repository and command) and 8 special environment states are tried; a table check keeps the generator's flag set equal to `--help`.",
+   'Single git faults only (multi-fault sequences are not enumerated). --llm-help excluded. Clock-derived 10-digit numbers are masked when comparing runs.',
+   "§6 C13"),
  "C14": (False, "", "", "", "§6 C14"),
  "C15": (False, "", "", "", "§6 C15"),
  "C16": (True,
